@@ -83,6 +83,7 @@ static CaseResult run_case(Tape &t, const dif::CaseOpt &opt = dif::CaseOpt())
 		return pkt;
 	};
 	std::vector<Bytes> spoofed, controls;
+	int stream_left = 0, stream_seq = 0, stream_frag = 0;
 	srv.policy = [&](ScriptServer &S, const refproto::Query &q, const sim::Datagram &dg, int step) -> bool {
 		bool in_tunnel = step == S_P || step == S_DATA;
 		if (S.queries <= honest_prefix && !(tunnel_hostile && in_tunnel)) return false;
@@ -92,6 +93,21 @@ static CaseResult run_case(Tape &t, const dif::CaseOpt &opt = dif::CaseOpt())
 			if (kind == 2) { controls.push_back(spoof_answer(S, q, dg, false, false, t.chance(1, 3))); n_control++; S.out_seq = (S.out_seq + 3) & 7; S.out_frag = 0; return true; }
 			spoofed.push_back(spoof_answer(S, q, dg, kind == 0, kind == 1, t.chance(1, 2))); n_spoof++;
 			return false;   // the honest answer still follows
+		}
+		// an endless downstream packet: consecutive fragments of one sequence number, never the last one, each as large as the
+		// record type can carry (MX/SRV answers with ~200 records decode to ~30 KB): the client's 64 KB reassembly buffer must clamp
+		if (in_tunnel && (stream_left > 0 || (tunnel_hostile && t.chance(1, 12)))) {
+			if (stream_left <= 0) { stream_left = 3 + (int)t.below(6); stream_seq = (S.out_seq + 2) & 7; stream_frag = 0; }
+			stream_left--;
+			refproto::QAck qa; if (refproto::query_ack(q, qa) && qa.is_data) { S.in_seq = qa.up_seq; S.in_frag = qa.up_frag; }
+			Bytes p = {(uint8_t)(0x80 | ((S.in_seq & 7) << 4) | (S.in_frag & 15)), (uint8_t)(((stream_seq & 7) << 5) | ((stream_frag & 15) << 1))};
+			stream_frag++;
+			size_t n = 20000 + t.below(40000);
+			Bytes d(n); uint32_t x = t.u32() | 1; for (auto &b : d) { x ^= x << 13; x ^= x >> 17; x ^= x << 5; b = (uint8_t)x; }
+			p.insert(p.end(), d.begin(), d.end());
+			S.answer(dg, q, p, S.downenc);
+			hostile_total++; hostile_at[step]++; ms.hit("tunnel:endless-fragment-stream");
+			return true;
 		}
 		if (t.below(1000) >= p_hostile) return false;
 		hostile_total++; hostile_at[step]++;
